@@ -173,14 +173,14 @@ def one_case(ctx, rng, idx, mem, deadline):
         if not mem and len(arrived) < n and not escaped:
             # real sockets: give the kernel real time before judging; still nothing => inconclusive, never a verdict
             t0 = time.time()
-            while len(arrived) < n and time.time() - t0 < 1.5 and not escaped:
+            while len(arrived) < n and time.time() - t0 < 0.4 and not escaped:
                 time.sleep(0.002)
                 step("p.all", patron.serviceAll)
                 step("v.all", valet.serviceAll)
                 store.advanceStamp(0.001)
             ctx.hit("loopback_drain")
             if len(arrived) < n and not escaped:
-                ctx.inconclusive_case("loopback exchange incomplete after 400 fair rounds + 1.5 s (wall-clock watchdog)")
+                ctx.inconclusive_case("loopback exchange incomplete after 400 fair rounds + 0.4 s (wall-clock watchdog)")
                 return
         got_n = len(arrived)
         # probe N+1 on the same connection
@@ -199,12 +199,12 @@ def one_case(ctx, rng, idx, mem, deadline):
                     time.sleep(0.0002)
             if not mem and len(arrived) < n + 1 and not escaped:
                 t0 = time.time()
-                while len(arrived) < n + 1 and time.time() - t0 < 1.5 and not escaped:
+                while len(arrived) < n + 1 and time.time() - t0 < 0.4 and not escaped:
                     time.sleep(0.002)
                     step("p.all", patron.serviceAll)
                     step("v.all", valet.serviceAll)
                 if len(arrived) < n + 1 and not escaped:
-                    ctx.inconclusive_case("loopback probe incomplete after 400 fair rounds + 1.5 s (wall-clock watchdog)")
+                    ctx.inconclusive_case("loopback probe incomplete after 400 fair rounds + 0.4 s (wall-clock watchdog)")
                     return
             probe_ok = len(arrived) == n + 1
         ctx.event(steps + fair)
